@@ -8,8 +8,8 @@ open LinfaSpec.Proto LinfaSpec.Fold
 /-- tagged dataset shared with the harness: record cell `(id, j)` is `id*p+j`,
 target cell `(id, c)` is `100000 + id*t + c`.  The model works on the LOGICAL rows: the
 request's memory layout (`lr=`/`lt=`), element type (`er=`/`et=`) and storage kind (`own=`)
-do not enter `fold` at all, and enter `iter_fold` only through the standard-layout guard
-(the harness sends non-standard layouts as oracle-only requests). -/
+do not enter `fold` at all, and enter `iter_fold` only through the two flags `sr=` / `st=`
+("`as_slice_mut()` is `Some`") that the harness probes on a twin array and sends along. -/
 def recRows (n p : Nat) : List (List Nat) :=
   (List.range n).map fun id => (List.range p).map fun j => id * p + j
 def tgtRows (n t : Nat) : List (List Nat) :=
@@ -21,10 +21,11 @@ def labRows (n t : Nat) : List (List Nat) :=
 def showRows (r : List (List Nat)) : String := showList2 toString r
 
 /-- the statement promises the training part as a multiset of (record, target) rows: both sides
-print it in the canonical order (record ids are distinct, so the first cell is a key) -/
+print it in the canonical order (record ids are distinct, so the first cell of the row pair —
+the first record cell, or the first target cell when the records have no columns — is a key) -/
 def sortPaired (r t : List (List Nat)) : List (List Nat) × List (List Nat) :=
   if r.length ≠ t.length then (r, t) else
-  ((r.zip t).mergeSort (fun a b => a.1.headD 0 ≤ b.1.headD 0)).unzip
+  ((r.zip t).mergeSort (fun a b => (a.1 ++ a.2).headD 0 ≤ (b.1 ++ b.2).headD 0)).unzip
 
 /-- linear-time split of a flat row-major buffer into rows of `p` cells -/
 def rowsOf (p : Nat) (l : List Nat) : List (List Nat) :=
@@ -35,18 +36,23 @@ def rowsOf (p : Nat) (l : List Nat) : List (List Nat) :=
 
 def guardOk (n k : Nat) : Bool := 2 ≤ k && k ≤ n
 
+/-- `n` rows of width `p` out of a flat buffer (`p = 0`: `n` empty rows) -/
+def rowsN (n p : Nat) (l : List Nat) : List (List Nat) :=
+  if p = 0 then List.replicate n [] else rowsOf p l
+
 def handleFold (toks : List String) : Option String := do
   let n ← argNat toks "n"; let k ← argNat toks "k"
   let p ← argNat toks "p"; let t ← argNat toks "t"
   -- outside the property's guard nothing is promised: exercised by the harness, not compared
   if !guardOk n k then some "unguarded" else
-  match foldPairs k (recRows n p), foldPairs k (tgtRows n t) with
-  | some fr, some ft =>
-    let parts := (fr.zip ft).map fun ((trR, vaR), (trT, vaT)) =>
+  -- `DatasetBase::fold` as the code runs it: one fold size (from the targets) for both containers
+  match foldDataset k (recRows n p) (tgtRows n t) with
+  | some ps =>
+    let parts := ps.map fun ((trR, trT), (vaR, vaT)) =>
       let (a, b) := sortPaired trR trT
       s!"TR:{showRows a}/TT:{showRows b}/VR:{showRows vaR}/VT:{showRows vaT}"
     some ("ok " ++ " ".intercalate parts)
-  | _, _ => some "panic"
+  | none => some "panic"
 
 def column (rows : List (List Nat)) (c : Nat) : List Nat := rows.map fun r => r.getD c 0
 
@@ -57,11 +63,10 @@ def handleFoldCounted (toks : List String) : Option String := do
   let labs := labRows n t
   -- `CountedTargets::new_targets`: one recounted map per target column, per part
   let cols ← (List.range t).mapM fun c => foldCounted k (column labs c)
-  match foldPairs k (recRows n p), foldPairs k labs with
-  | some fr, some ft =>
+  match foldDataset k (recRows n p) labs with
+  | some ps =>
     let parts := (List.range k).map fun i =>
-      let (trR, vaR) := fr.getD i ([], [])
-      let (trT, vaT) := ft.getD i ([], [])
+      let ((trR, trT), (vaR, vaT)) := ps.getD i (([], []), ([], []))
       let cnt := fun (pick : (List Nat × (Nat → Nat)) × (List Nat × (Nat → Nat)) → (Nat → Nat)) =>
         cols.map fun col => match col[i]? with
           | some pr => (List.range 4).map (pick pr)
@@ -69,19 +74,27 @@ def handleFoldCounted (toks : List String) : Option String := do
       let (a, b) := sortPaired trR trT
       s!"TR:{showRows a}/TT:{showRows b}/CT:{showRows (cnt (·.1.2))}/VR:{showRows vaR}/VT:{showRows vaT}/CV:{showRows (cnt (·.2.2))}"
     some ("ok " ++ " ".intercalate parts)
-  | _, _ => some "panic"
+  | none => some "panic"
 
+/-- `sr=` / `st=`: does `as_slice_mut()` answer `Some` for the records / targets array the harness
+built (probed on a twin array through ndarray, not through linfa) -/
+def argFlag (toks : List String) (key : String) : Option Bool := do
+  let v ← argNat toks key
+  if v = 0 then some false else if v = 1 then some true else none
+
+/-- every `iter_fold` request goes through `iterFoldLayout`: the three documented panics
+(`k = 0`, `k > n`, not contiguous in standard order) are answered `panic` by the model too -/
 def handleIterFold (toks : List String) : Option String := do
   let n ← argNat toks "n"; let k ← argNat toks "k"
   let p ← argNat toks "p"; let t ← argNat toks "t"
-  if !guardOk n k then some "unguarded" else
-  -- compared requests are standard layout (the harness checks `is_standard_layout()` itself)
-  match iterFoldLayout true true n k p t (recRows n p).flatten (tgtRows n t).flatten with
+  let sr ← argFlag toks "sr"; let st ← argFlag toks "st"
+  match iterFoldLayout sr st n k p t (recRows n p).flatten (tgtRows n t).flatten with
   | none => some "panic"
   | some o =>
+    let fs := n / k
     let sh := fun (x : List Nat × List Nat) => s!"{showList toString x.1}/{showList toString x.2}"
     let shSorted := fun (x : List Nat × List Nat) =>
-      let (a, b) := sortPaired (rowsOf p x.1) (rowsOf t x.2)
+      let (a, b) := sortPaired (rowsN (n - fs) p x.1) (rowsN (n - fs) t x.2)
       sh (a.flatten, b.flatten)
     some (s!"ok trains={" ".intercalate (o.trains.map shSorted)} valids={" ".intercalate (o.valids.map sh)} " ++
       s!"final={showList toString o.finalR}/{showList toString o.finalT}")
@@ -99,9 +112,10 @@ def foldOfTrain (n k p : Nat) (trR : List Nat) : Nat :=
 /-- scripted cross-validation THROUGH the model's `iter_fold`: the mock parameter sets and the
 mock evaluation look up their scripted outcome by the fold they recognise in the training /
 validation view the model hands them.  `fit=` list2 `[fold][model]` of codes (0 = ok), `ev=`
-likewise, `vals=` list3 `[fold][model][target]` of integers `q` standing for `q/4`. -/
+likewise, `vals=` list3 `[fold][model][target]` of integers `q` standing for `q/den` (`den=4`:
+exact quarter units; `den=10`: scores that are not representable, so every addition rounds). -/
 def runCv {σ} [Add σ] [Div σ] [OfNat σ 0] [NatCast σ] (ofQuarter : Int → σ) (shw : σ → String)
-    (n k p t m : Nat) (single : Bool)
+    (sr st : Bool) (n k p t m : Nat) (single : Bool)
     (fit ev : List (List Nat)) (vals : List (List (List Int))) : String :=
   let params : List (List Nat × List Nat → Except String (Nat × Nat)) :=
     (List.range m).map fun mi => fun tr =>
@@ -119,11 +133,11 @@ def runCv {σ} [Add σ] [Div σ] [OfNat σ 0] [NatCast σ] (ofQuarter : Int → 
   let tgts := (tgtRows n t).flatten
   let out : Option (Except String (List (List σ)) × List Nat × List Nat) :=
     if single then
-      (crossValidateSingleOn true true n k p recs tgts params
+      (crossValidateSingleOn sr st n k p recs tgts params
         (fun md va => match cell md va with | .ok v => .ok (v.headD 0) | .error e => .error e)).map
         fun (r, a, b) => (match r with | .ok v => .ok (v.map ([·])) | .error e => .error e, a, b)
     else
-      (crossValidateOn true true n k p t recs tgts params cell t).map fun o => (o.result, o.finalR, o.finalT)
+      (crossValidateOn sr st n k p t recs tgts params cell t).map fun o => (o.result, o.finalR, o.finalT)
   match out with
   | none => "panic"
   | some (res, fr, ft) =>
@@ -132,18 +146,24 @@ def runCv {σ} [Add σ] [Div σ] [OfNat σ 0] [NatCast σ] (ofQuarter : Int → 
     | .error e => if failing > 1 then "err one-of-scripted" else "err " ++ e
     | .ok rows => "ok " ++ showList2 shw rows
 
-def handleCv (toks : List String) : Option String := do
+/-- `cv` (f64 accumulator) and `cv32` (f32 accumulator) requests: all `k` are compared (the
+documented panics of `iter_fold` included); scores are printed as `~`-tokens (f32 widened) -/
+def handleCv (want32 : Bool) (toks : List String) : Option String := do
   let n ← argNat toks "n"; let k ← argNat toks "k"; let p ← argNat toks "p"
   let m ← argNat toks "m"; let t ← argNat toks "t"
   let single ← argNat toks "single"; let acc ← argNat toks "acc"
+  let sr ← argFlag toks "sr"; let st ← argFlag toks "st"
+  let den ← argNat toks "den"
   let fit ← argNats2 toks "fit"; let ev ← argNats2 toks "ev"
   let vals ← (arg toks "vals").bind (parseList3 parseInt)
-  if !guardOk n k then some "unguarded" else
+  if den = 0 then none else
   if fit.length ≠ k ∨ ev.length ≠ k ∨ vals.length ≠ k then none else
-  if acc = 64 then
-    some (runCv (σ := Float) (fun q => Float.ofInt q / 4) showF64 n k p t m (single = 1) fit ev vals)
-  else if acc = 32 then
-    some (runCv (σ := Float32) (fun q => Float32.ofInt q / 4) showF32 n k p t m (single = 1) fit ev vals)
+  if acc = 64 ∧ !want32 then
+    some (runCv (σ := Float) (fun q => Float.ofInt q / Float.ofNat den) (fun x => "~" ++ showF64 x)
+      sr st n k p t m (single = 1) fit ev vals)
+  else if acc = 32 ∧ want32 then
+    some (runCv (σ := Float32) (fun q => Float32.ofInt q / Float32.ofNat den)
+      (fun x => "~" ++ showF64 x.toFloat) sr st n k p t m (single = 1) fit ev vals)
   else none
 
 def handle (toks : List String) : String :=
@@ -151,7 +171,8 @@ def handle (toks : List String) : String :=
     | "fold" :: rest => handleFold rest
     | "fold_counted" :: rest => handleFoldCounted rest
     | "iter_fold" :: rest => handleIterFold rest
-    | "cv" :: rest => handleCv rest
+    | "cv" :: rest => handleCv false rest
+    | "cv32" :: rest => handleCv true rest
     | _ => none
   r.getD "bad-op"
 
